@@ -5,14 +5,14 @@ Same rules as C01 on DiHypergraph with sides: the edge side ``_edge[e]['in']`` (
 (R-INC per side), including strong node removal.
 """
 from ..report import Result
-from .incidence_rules import check_enc, check_fresh, run_class
+from .incidence_rules import check_enc, check_fresh, check_share, run_class
 
 PROP = "C02"
 
 
 def run(ctx):
     res = Result(PROP)
-    res.rules = ["R-ENC", "R-EXIT", "R-INC", "R-ATTR", "R-EXC", "R-ONCE", "U-OWN", "U-COPY", "U-FUNC", "U-PROV", "U-GUARD", "U-BUMP"]
+    res.rules = ["R-ENC", "R-EXIT", "R-INC", "R-ATTR", "R-EXC", "R-ONCE", "R-SHARE", "U-OWN", "U-COPY", "U-FUNC", "U-PROV", "U-GUARD", "U-BUMP"]
     res.explanation = (
         "As C01, for every writer method of DiHypergraph: table writes become relational delta formulas for E.in/E.out "
         "and N.in/N.out; the invariant pairs E.in with N.out and E.out with N.in, so gains and losses of each pair must "
@@ -22,5 +22,6 @@ def run(ctx):
     eng = run_class(ctx, res, PROP, "DiHypergraph", True, 10, skip=("__init__", "__setstate__"))
     if not ctx.only:
         check_enc(ctx, res, PROP, eng)
+        check_share(ctx, res, PROP, "DiHypergraph")
         check_fresh(ctx, res, PROP, ("DiHypergraph",))
     return res
